@@ -163,7 +163,7 @@ func TestVerifC06(t *testing.T) {
 	}
 	r.Bounds["type_term_depth"] = depth
 	r.Bounds["accessor_chain_length"] = chainLen
-	r.Extra["rule"] = "accessor chains of length <= 3 over {.y, .z, .*, [0], ['y']} on <root>.x in 34 contexts x roots {matrix, steps, needs, inputs, secrets, jobs} typed {x: T} for every type term T up to the depth bound x every single loosening (sub-term -> any, strict -> open object); oracle: an expression without diagnostics under the original environment has none under the loosened one; end-to-end: 4 literal-vs-dynamic definition pairs x consumer expressions, and every include list of 1-3 elements over 4 element forms with one known element made unknown x 8 consumers, every row list of 1-3 elements over 5 element forms likewise x 9 consumers (+ a typed position), 15 typed positions (timeouts, booleans, call-input defaults, runs-on) and 7 positions of a caller inside a repository (typed / untyped inputs and secret of a local reusable workflow, inputs of a local action) x value of known type made unknown, through Linter.Lint. class = message skeleton that disappears or stays; non-trivial = original environment reports something"
+	r.Extra["rule"] = "accessor chains of length <= 3 over {.y, .z, .*, [0], ['y']} on <root>.x in 34 contexts x roots {matrix, steps, needs, inputs, secrets, jobs} typed {x: T} for every type term T up to the depth bound x every single loosening (sub-term -> any, strict -> open object); oracle: an expression without diagnostics under the original environment has none under the loosened one; end-to-end: 4 literal-vs-dynamic definition pairs x consumer expressions, and every include list of 1-3 elements over 4 element forms with one known element made unknown x 8 consumers, every row list of 1-3 elements over 5 element forms likewise x 9 consumers (+ a typed position), 15 typed positions (timeouts, booleans, call-input defaults, runs-on) and 7 positions of a caller inside a repository (typed / untyped inputs and secret of a local reusable workflow, inputs of a local action) x value of known type made unknown, 13 consumers of jobs.<id>.outputs in on.workflow_call outputs with the job an ordinary one vs a call of another workflow (3 layouts, remote / local); through Linter.Lint. class = message skeleton that disappears or stays; non-trivial = original environment reports something"
 	r.Extra["assumptions"] = []string{"environments type one property x of one context at a time", "message identity is compared modulo quoted names and type renderings"}
 
 	if raw := vReplayInput(); raw != nil {
@@ -582,6 +582,52 @@ func TestVerifC06(t *testing.T) {
 		src0 := "on: push\njobs:\n  j:\n    runs-on: ubuntu-latest\n    outputs:\n      o: v\n    steps:\n      - run: echo\n" + tail
 		src1 := "on: push\njobs:\n  j:\n    uses: owner/repo/.github/workflows/w.yml@v1\n" + tail
 		c06E2ECompare(r, src0, src1, "needs-outputs-unknown")
+	}
+	// a matrix given as ONE expression whose include list has elements of known type vs the same list
+	// with one more element that makes the element type unknown
+	for _, cons := range []string{"matrix.x", "matrix.X", "matrix['x']", "matrix.os", "toJSON(matrix)", "matrix.x == 1", "matrix.x.y", "matrix.nope"} {
+		for _, extra := range []string{"null", "1", "\"s\"", "[]", "{\"y\":2},null"} {
+			idx++
+			if !r.Mine(idx) {
+				continue
+			}
+			mk := func(inc string) string {
+				return "on: push\njobs:\n  a:\n    runs-on: ubuntu-latest\n    strategy:\n      matrix: ${{ fromJSON('{\"os\":[\"a\"],\"include\":[" + inc + "]}') }}\n    steps:\n      - run: echo ${{ " + cons + " }}\n"
+			}
+			c06E2ECompare(r, mk("{\"x\":1}"), mk("{\"x\":1},"+extra), "matrix-expression-include-element-unknown")
+		}
+	}
+	// the jobs context of on.workflow_call.outputs.<id>.value: declared outputs of an ordinary job vs a
+	// job that calls another reusable workflow (its outputs are not known); the call job first, last,
+	// next to an ordinary job
+	jobsCons := []string{"jobs.j.outputs.o", "jobs.J.outputs.O", "jobs.j.outputs['o']", "jobs['j'].outputs.o", "toJSON(jobs.j.outputs)", "jobs.j.outputs.o || 'x'", "format('{0}', jobs.j.outputs.o)", "jobs.j.result", "jobs.*.outputs.o", "toJSON(jobs.*.outputs)", "jobs.j.outputs.o.x", "jobs.j.outputs.nope", "jobs.j.nope"}
+	for _, cons := range jobsCons {
+		for _, layout := range []int{0, 1, 2} {
+			for _, local := range []bool{false, true} {
+				idx++
+				if !r.Mine(idx) {
+					continue
+				}
+				head := "on:\n  workflow_call:\n    outputs:\n      out:\n        value: ${{ " + cons + " }}\njobs:\n"
+				other := "  k:\n    runs-on: ubuntu-latest\n    outputs:\n      ko: v\n    steps:\n      - run: echo\n"
+				plain := "  j:\n    runs-on: ubuntu-latest\n    outputs:\n      o: v\n    steps:\n      - run: echo\n"
+				uses := "owner/repo/.github/workflows/w.yml@v1"
+				if local {
+					uses = "./.github/workflows/other.yml"
+				}
+				call := "  j:\n    uses: " + uses + "\n"
+				wrap := func(j string) string {
+					switch layout {
+					case 1:
+						return head + other + j
+					case 2:
+						return head + j + other
+					}
+					return head + j
+				}
+				c06E2ECompare(r, wrap(plain), wrap(call), "jobs-outputs-unknown")
+			}
+		}
 	}
 }
 
